@@ -775,7 +775,8 @@ func (fc *FnCtx) doAppend(args []Val, pos token.Pos, resT types.Type) Val {
 		st := fc.cur.derive()
 		st.assume(not(fits))
 		fc.cur = st
-		fc.allocObligationNoAssume(pos, app("bvmul", ncap, bvLit(esz, 64)), "append")
+		// growth allocates at most (2*newlen+64) elements
+		fc.allocObligationNoAssume(pos, app("bvmul", app("bvadd", app("bvshl", newlen, bvLit(1, 64)), bvLit(64, 64)), bvLit(esz, 64)), "append")
 		fc.cur = saved
 	}
 	nref := fc.allocRef()
